@@ -27,7 +27,7 @@ def run (line : String) : String :=
         | "C12" :: _ => judgeC12 o
         | "C12cons" :: r :: init => judgeC12Conservation o (parseNat! r) (init.filterMap String.toInt?)
         | "C14" :: _ => judgeC14 o
-        | "C15" :: _ => judgeC15 o
+        | "C15" :: st :: _ => judgeC15 o (parseRat st)
         | "C20" :: n :: _ => judgeC20 o (parseNat! n)
         | _ => ["unknown judge"]
       if v.isEmpty then "ok" else "fail: " ++ " ;; ".intercalate (v.take 5)
